@@ -57,7 +57,7 @@ func (g *Gen) genFrozen(n int) error {
 			g.oneHitRemergeCase()
 			continue
 		}
-		if i == 50 && g.dumpfiles {
+		if i == 51 && g.dumpfiles {
 			// the big merge with few deletions: terms on both sides of 1024 live documents in neighbouring
 			// fields (among them the empty term as a field's first term), dumped
 			g.forceBigVariant = 2
